@@ -28,7 +28,9 @@ impl Element {
 
 impl Hash for Element {
     fn hash<H: core::hash::Hasher>(&self, state: &mut H) {
-        self.inner.hash(state);
+        // Equal elements may have different internal representatives, so hash
+        // the canonical encoding rather than the coordinates.
+        self.vartime_compress().0.hash(state);
     }
 }
 
